@@ -25,8 +25,13 @@ def run_property(pid: str, tier: str, seed: int, tree: Tree | None = None, *, qu
             tree = Tree.from_repo()
         ctx.stats["modules"] = tree.digest()
         mod.run(ctx, tree)
-        if tier == "thorough" and hasattr(mod, "run_thorough"):
-            mod.run_thorough(ctx, tree)
+        if tier == "thorough":
+            if hasattr(mod, "run_thorough"):
+                mod.run_thorough(ctx, tree)
+            from .catalog import CATALOG
+            from .selftest import thorough
+
+            thorough(ctx, tree, CATALOG.get(pid, []))
         return ctx.finish(), ctx
     except AnalysisError as exc:
         return ctx.finish(analysis_error=str(exc)), ctx
